@@ -32,6 +32,10 @@ type scope struct {
 	instances   map[instanceKey]any
 	instancesMu sync.RWMutex
 
+	// Scoped constructions in progress: a resolution that finds one waits for it instead of constructing a second instance
+	creating   map[*Descriptor]*scopedCall
+	creatingMu sync.Mutex
+
 	// Track disposable scoped instances
 	disposables   []Disposable
 	disposablesMu sync.Mutex
@@ -42,6 +46,12 @@ type scope struct {
 
 	// State
 	disposed int32 // atomic
+}
+
+// scopedCall is one construction of a scoped service in progress; done is closed when it has ended, err is its outcome.
+type scopedCall struct {
+	done chan struct{}
+	err  error
 }
 
 func newScope(rootProvider *provider, parent *scope, ctx context.Context, cancel context.CancelFunc) (*scope, error) {
@@ -486,17 +496,7 @@ func (s *scope) resolve(key instanceKey, descriptor *Descriptor) (any, error) {
 		}
 
 		// Create and cache scoped instance
-		instance, err := s.createInstance(descriptor)
-		if err != nil {
-			return nil, err
-		}
-
-		// The scope was closed while the instance was being built: the instance has been disposed with it
-		if atomic.LoadInt32(&s.disposed) != 0 {
-			return nil, ErrScopeDisposed
-		}
-
-		return instance, nil
+		return s.createScoped(key, descriptor)
 
 	case Transient:
 		// Always create new instance
@@ -517,6 +517,83 @@ func (s *scope) resolve(key instanceKey, descriptor *Descriptor) (any, error) {
 			Value: descriptor.Lifetime,
 		}
 	}
+}
+
+// createScoped constructs a scoped service that is not cached yet. A scope holds one instance of it however many
+// goroutines resolve it at once: a resolution that finds the construction in progress in another goroutine waits for
+// it and takes its instance from the cache instead of running the constructor a second time. All outputs of one
+// constructor are one construction. A failed construction is reported to everyone who waited for it and leaves
+// nothing behind, so that a later resolution starts afresh.
+func (s *scope) createScoped(key instanceKey, descriptor *Descriptor) (any, error) {
+	id := descriptor
+	if len(descriptor.outputs) > 0 {
+		id = descriptor.outputs[0]
+	}
+
+	for {
+		s.creatingMu.Lock()
+		call, busy := s.creating[id]
+		if !busy {
+			call = &scopedCall{done: make(chan struct{})}
+			if s.creating == nil {
+				s.creating = make(map[*Descriptor]*scopedCall, 1)
+			}
+			s.creating[id] = call
+			s.creatingMu.Unlock()
+
+			// A construction may have ended between the cache lookup and the announcement: it stored its instance
+			// before it withdrew its own announcement, so the cache has it now
+			if instance, ok := s.getInstance(key); ok {
+				s.release(id, call, nil)
+				return instance, nil
+			}
+
+			instance, err := s.construct(id, call, descriptor)
+			if err != nil {
+				return nil, err
+			}
+
+			// The scope was closed while the instance was being built: the instance has been disposed with it
+			if atomic.LoadInt32(&s.disposed) != 0 {
+				return nil, ErrScopeDisposed
+			}
+
+			return instance, nil
+		}
+		s.creatingMu.Unlock()
+
+		// Another goroutine is constructing it: wait, then take what it stored
+		<-call.done
+		if instance, ok := s.getInstance(key); ok {
+			return instance, nil
+		}
+		if call.err != nil {
+			return nil, call.err
+		}
+		if atomic.LoadInt32(&s.disposed) != 0 {
+			return nil, ErrScopeDisposed
+		}
+		// Nothing was stored under this identity (an output the constructor left nil): proceed like a first attempt
+	}
+}
+
+// construct runs the construction announced by call and releases everyone waiting for it, whatever its outcome.
+func (s *scope) construct(id *Descriptor, call *scopedCall, descriptor *Descriptor) (instance any, err error) {
+	defer func() {
+		s.release(id, call, err)
+	}()
+
+	return s.createInstance(descriptor)
+}
+
+// release withdraws the announcement of a construction and wakes everyone waiting for it.
+func (s *scope) release(id *Descriptor, call *scopedCall, err error) {
+	s.creatingMu.Lock()
+	delete(s.creating, id)
+	s.creatingMu.Unlock()
+
+	call.err = err
+	close(call.done)
 }
 
 // createInstance creates a new instance of a service using its constructor.
